@@ -106,13 +106,20 @@ def gen_cases(tier, rng):
                 cases.append(_case_staged(steps, abbr, w))
     # sub-group arguments live in a container of their own: their keys and abbreviations obey the same rules
     for abbr in (True, False):
-        for main in (['i,input'], ['in'], ['i,input', 'inp'], []):
-            for sub in ('o,output', 'input-dir', 'output', 'x,index'):
+        for main in (['i,input'], ['in'], ['i,input', 'inp'], [], ['output', 'outer'], ['output']):
+            for sub in ('o,output', 'input-dir', 'output', 'x,index', 'inp', 'in', 'out'):
                 for w in ['-o', '-i', '-x', '--output', '--out', '--outp', '--in', '--inp', '--input', '--input-', '--input-dir', '--ind', '--index']:
                     toks = ['H:f=%d' % (0 if abbr else 0x80)]
                     toks += ['arg:%s:b%d:init=0' % (sp, n) for n, sp in enumerate(main)]
                     toks += ['S:%s:f=%d' % (sub, 0 if abbr else 0x80), 'arg:q:b3:init=0', A.argv_tok([w])]
                     cases.append(' '.join(toks))
+    # the sub-group handler has its own abbreviation setting - also when it was created with the constructor for
+    # sub-groups, which takes other settings from the main handler: words behind the sub-group key
+    for fm, fs in ((0, 0), (0, 0x80), (0x80, 0), (0x80, 0x80)):
+        for ctor in ('', ':subctor'):
+            for w in ('--file', '--fil', '--f', '--quiet', '--qu', '-q', '--verbose', '--verb', '--nothing'):
+                cases.append('H:f=%d arg:v,verbose:b0:init=0 S:o,output:f=%d%s arg:file:b1:init=0 arg:q,quiet:b2:init=0 %s'
+                             % (fm, fs, ctor, A.argv_tok(['-o', w])))
     # the key of a sub-group argument and the key of a plain argument of the same handler: one key, one argument -
     # whichever of the two is defined first
     for abbr in (True, False):
@@ -200,9 +207,12 @@ def spec_check(case, ir, mr):
     toks = case.split(' ')
     abbr = toks[0] == 'H:f=0'
     defs = []
+    subdefs = []
+    sub_abbr = True
     in_sub = False
     for t in toks:
         if t.startswith('S:'):
+            sub_abbr = 'f=128' not in t.split(':')[2]
             # a sub-group argument of the main handler: its key belongs to the family; the arguments that follow
             # belong to the sub-group handler
             defs.append((_parse(t.split(':')[1]), 'SUB', False))
@@ -212,13 +222,17 @@ def spec_check(case, ir, mr):
             _, _, spec, slot, opts = t.split(':', 4)
             defs.append((_parse(spec), slot, 'try' in opts.split('/')))
         elif t.startswith('arg:') and in_sub:
+            _, spec, slot, opts = t.split(':', 3)
+            subdefs.append((_parse(spec), slot))
             continue
         elif t.startswith('arg:'):
             _, spec, slot, opts = t.split(':', 3)
             defs.append((_parse(spec), slot, 'try' in opts.split('/')))
         elif t.startswith('probe:'):
             defs.append(('probe', bytes.fromhex(t[6:]).decode(), False))
-    word = bytes.fromhex(toks[-1][5:]).decode() if toks[-1] != 'argv:-' else None
+    words = [bytes.fromhex(x).decode() for x in toks[-1][5:].split(',')] if toks[-1] != 'argv:-' else []
+    word = words[0] if words else None
+    sub_word = words[1] if len(words) > 1 else None
     if any(k in ('odd',) for k, _, _ in defs):
         return None          # outside the clean family: no judgement
     outcome = ir.split(' ')[0]
@@ -274,6 +288,28 @@ def spec_check(case, ir, mr):
         expect = seen_s.get(word[1:])
     vals = dict(x.split('=') for x in ir.split(' ## ')[0].split(' ')[1:] if '=' in x)
     hit = [s for s, v in vals.items() if v == '1']
+    if expect == 'SUB' and sub_word is not None:
+        # a word behind the key of the sub-group argument: looked up in the sub-group handler, with the
+        # abbreviation setting of THAT handler
+        if any(k in ('odd', 'bad') for k, _ in subdefs):
+            return None
+        ss, sl = {}, {}
+        for (ks, kl), slot in subdefs:
+            if ks:
+                ss[ks] = slot
+            if kl:
+                sl[kl] = slot
+        e2 = _designates(ss, sl, sub_abbr, sub_word)
+        if e2 is None:
+            # the sub-group handler does not know the word: the main handler evaluates it
+            e2 = _designates(seen_s, seen_l, abbr, sub_word)
+            if e2 == 'SUB':
+                return None
+        if e2 is None:
+            return None if outcome == 'err' else 'word %s behind the sub-group key is known to nobody but was accepted (set %s)' % (sub_word, hit)
+        if outcome != 'ok' or hit != [e2]:
+            return 'behind the sub-group key, %s designates %s but the result is %s %s' % (sub_word, e2, outcome, hit)
+        return None
     if expect == 'SUB':
         # the key of a sub-group argument: accepted, no destination of the main handler is touched
         return None if outcome == 'ok' and not hit else 'key %s designates the sub-group argument but the result is %s %s' % (word, outcome, hit)
@@ -311,6 +347,8 @@ def _subgroup_region(case):
                 main.append(k[1])
     if set(main) & set(sub):
         return False          # the same long key in both containers: the definition itself must be refused
+    if w in sub:
+        return False          # the exact key of a sub-group argument: the sub-group container is right to take it
     return any(l.startswith(w) for l in main) and any(l.startswith(w) for l in sub)
 
 
